@@ -509,7 +509,7 @@ TABLE_MODULES = ('mitxgraders.helpers.calc.mathfuncs', 'mitxgraders.helpers.calc
 
 
 def d7_tables(ctx, idx):
-    r = ctx.rule('D7.COPY', 'process-wide default tables are never written after import; per-class defaults are copies', floor=7)
+    r = ctx.rule('D7.COPY', 'process-wide default tables are never written after import; per-class defaults are copies', floor=9)
     with r:
         tables = set()
         for mn in TABLE_MODULES:
@@ -551,6 +551,22 @@ def d7_tables(ctx, idx):
                     'table shared by all graders', lib.loc(vm, dels[0]))
         else:
             r.ok('validate_math_config: default_variables', 'no deletion', vm.loc, nontrivial=False)
+        # construct_functions / construct_constants / construct_suffixes are handed the class-level default tables
+        # (MathMixin.default_*, shared by every math grader): they must build their result on a copy
+        from ..effects import MutationSummaries
+        summ = MutationSummaries(idx)
+        for q in ('mitxgraders.sampling.construct_functions', 'mitxgraders.sampling.construct_constants',
+                  'mitxgraders.sampling.construct_suffixes'):
+            fi = idx.func(q)
+            mp = summ.mutated_params(fi)
+            first = fi.params[0]
+            if first in mp:
+                m0 = mp[first][0]
+                r.violation('%s(%s)' % (q.split('.')[-1], first), 'the default table passed in is mutated (`%s`); callers pass the class-level '
+                            'MathMixin.%s, shared by all math graders, so building one grader changes the scope of every other grader '
+                            '(e.g. metric suffixes become valid everywhere)' % (short(m0.node), first), lib.loc(fi, m0.node), expected='work on a copy')
+            else:
+                r.ok('%s(%s)' % (q.split('.')[-1], first), 'default table only read', fi.loc)
         # merge_dicts builds a fresh dict
         fgi = idx.func('mitxgraders.formulagrader.formulagrader.FormulaGrader.__init__')
         fx = FunctionEffects(fgi, idx)
@@ -631,6 +647,8 @@ _CALL_COMMIT_EARLY = """            self.config['answers'] = self.schema_answers
 """
 
 MUTANTS = [
+    Mutant('construct-suffixes-copy-late (seeds C09c/C11d)', 'mitxgraders/sampling.py', "    suffixes = default_suffixes.copy()\n    if metric:\n        suffixes.update(METRIC_SUFFIXES)\n",
+           "    suffixes = default_suffixes\n    if metric:\n        suffixes.update(METRIC_SUFFIXES)\n", 'D7'),
     Mutant('commit-before-postvalidation (F3)', BASE, _CALL_OLD, _CALL_COMMIT_EARLY, 'D2'),
     Mutant('postvalidation-skipped', BASE, "            answers = self.post_schema_ans_val(answers)\n\n            # Create the debug log", "\n            # Create the debug log", 'D2'),
     Mutant('flag-set-before-validation', BASE, "            inferred = self.infer_from_expect(expect)\n", "            self.inferring_answers = True\n            inferred = self.infer_from_expect(expect)\n", 'D2'),
